@@ -1,10 +1,10 @@
 package props
 
 import (
-	"time"
 	"context"
 	"fmt"
 	"strings"
+	"time"
 
 	"google.golang.org/protobuf/proto"
 
@@ -64,10 +64,10 @@ type c18Env struct {
 	cancel   context.CancelFunc
 	runDone  bool
 	conns    []goat.RpcReadWriter
-	announce []string        // key of each announced connection (learnt from its first envelope), "" until known
+	announce []string           // key of each announced connection (learnt from its first envelope), "" until known
 	got      map[int][]*env.Rpc // per announced connection index
 	readErr  map[int]error
-	consumed map[int]bool // consumer finished
+	consumed map[int]bool  // consumer finished
 	first    chan struct{} // closed when the first connection is announced
 }
 
@@ -414,10 +414,10 @@ func c18OpSeq(first, maxLen int) *explore.Scenario {
 			e := newC18(true)
 			vsched.Settle()
 			seq := ""
-			var wantAnnounce []string          // model: key of each announced connection, in order
-			live := map[string]int{}           // model: key -> index of its current connection (absent: none)
-			wantGot := map[int][]uint64{}      // model: ids each connection receives
-			cancelled := map[int]bool{}        // model: connection index was cancelled
+			var wantAnnounce []string     // model: key of each announced connection, in order
+			live := map[string]int{}      // model: key -> index of its current connection (absent: none)
+			wantGot := map[int][]uint64{} // model: ids each connection receives
+			cancelled := map[int]bool{}   // model: connection index was cancelled
 			stopped := false
 			nextID := uint64(1)
 			for pos := 0; pos < maxLen; pos++ {
